@@ -20,7 +20,7 @@ import numpy as np
 from .. import core
 
 L1_CLAUSES = ["TypeOK", "C12_WellFormed", "C12_HardEdgeIsRadialStep", "C12_HighpassIsComplement",
-              "C12_BandpassIsDifference", "C12_SoftClasses", "C12_ClassRadialSymmetricRayMonotone",
+              "C12_BandpassIsDifference", "C12_ColumnsAreIntervals", "C12_SoftClasses", "C12_ClassRadialSymmetricRayMonotone",
               "C12_PixelsIsNearestInteger"]
 CHEAP = ["TypeOK", "C12_WellFormed"]
 TOL = 1            # 1e-6 on the x1e6 scale
@@ -222,12 +222,44 @@ def measure_res(case):
     return t
 
 
+def measure_sweep(case):
+    """Hard-edged low-pass at each listed cutoff of one (large) box: the 0/1 gain table logged loss-free as per-column
+    runs along k3 (frequency coordinates)."""
+    from cryocat import cryomap
+    n = case["n"]
+    a = np.random.default_rng(case["mseed"]).normal(size=n)
+    Fa = np.fft.fftn(a)
+    t = {"kind": "sweep", "n": n, "real": True, "sweeps": []}
+    half = n[2] // 2
+    for r in case["cutoffs"]:
+        o = quiet(cryomap.lowpass, a, fourier_pixels=int(r), gaussian=0)
+        if not (isinstance(o, np.ndarray) and np.isrealobj(o) and list(o.shape) == list(n)):
+            t["real"] = False
+            break
+        H = np.fft.fftn(o) / Fa
+        g = np.rint(np.clip(np.nan_to_num(H.real, nan=2.0), -2.0, 2.0) * M).astype(np.int64)
+        binary = bool(np.all((g == 0) | (g == M))) and float(np.max(np.abs(H.imag))) * M <= TOL
+        ones = np.fft.fftshift(g == M, axes=2)                 # position j along the last axis <-> k3 = j - N3 // 2
+        pad = np.zeros((n[0], n[1], n[2] + 2), dtype=np.int8)
+        pad[:, :, 1:-1] = ones
+        d = np.diff(pad, axis=2)
+        runs = [[] for _ in range(n[0] * n[1])]
+        si, sj, sk = np.nonzero(d == 1)
+        ei, ej, ek = np.nonzero(d == -1)
+        for i, j, lo, hi in zip(si.tolist(), sj.tolist(), sk.tolist(), ek.tolist()):
+            runs[i * n[1] + j].append([lo - half, hi - 1 - half])
+        t["sweeps"].append({"r": int(r), "binary": binary, "runs": runs})
+    return t
+
+
 CLAUSE_OP = {"C12_HighpassIsComplement": "highpass", "C12_BandpassIsDifference": "bandpass"}
 
 
 def case_sig(case, clause):
     if case["kind"] == "dtype":
         return {"op": CLAUSE_OP.get(clause, "lowpass/highpass/bandpass"), "cutoff_as": "pixels", "input": "dtype-variation"}
+    if case["kind"] == "sweep":
+        return {"op": "lowpass", "cutoff_as": "pixels", "edge": "hard", "input": "cutoff-sweep"}
     if case["kind"] == "res":
         return {"op": case["filt"], "cutoff_as": "resolution", "edge": "hard"}
     return {"op": CLAUSE_OP.get(clause, "lowpass/highpass/bandpass"), "cutoff_as": "pixels",
@@ -240,7 +272,7 @@ def run_traces(ctx, cases, name="trace", batch=40):
         live = []
         for case in chunk:
             ctx.ran(case)
-            t, err = core.call_guarded({"filt": measure_filt, "dtype": measure_dtype}.get(case["kind"], measure_res), case)
+            t, err = core.call_guarded({"filt": measure_filt, "dtype": measure_dtype, "sweep": measure_sweep}.get(case["kind"], measure_res), case)
             if err is not None:
                 ctx.fail("call_raises", err, case, case_sig(case, "call_raises"))
                 continue
@@ -267,7 +299,7 @@ def run_traces(ctx, cases, name="trace", batch=40):
                 continue
             if v["clause"] == "malformed_request":
                 if case["kind"] == "res":
-                    ctx.discard("resolution request at a rounding tie or outside cutoffs 1..N/2 (decided by TLC)")
+                    ctx.discard("resolution request at an inexact rounding tie or outside cutoffs 1..N/2 (decided by TLC)")
                     continue
                 raise core.MachineryError("driver generated a configuration outside the specification's scope: %s" % (case,))
             detail = "FourierTrace rejects the measured gain tables (witness frequency %s" % (v.get("witness"),)
@@ -316,8 +348,8 @@ def replay_pixels(ctx, rec):
     from cryocat import cryomap
     q = rec["case"]
     case = {"kind": "pixels", "req": q}
-    if rec["tie"]:
-        ctx.discard("edge*px/res at an exact .5 tie (rounding direction not stated)")
+    if not rec["decided"]:
+        ctx.discard("edge*px/res at a rational .5 tie whose float quotient is not exact (side not stated)")
         return
     if not rec["inscope"]:
         ctx.discard("resolution request maps outside cutoffs 1..N/2 (decided by TLC)")
@@ -391,7 +423,20 @@ def noncubic_box(rng, lo, hi, cap):
             return n
 
 
-def rand_res(rng, n, filt=None):
+def tie_request(rng, edge, kmax=None):
+    """(px100, res100) with edge*px/res = k + 1/2 exactly, px and res multiples of 1/4 A (exact in binary floating point),
+    k of either parity, 1 <= round-half-even(k + 1/2) <= edge/2.  Only the inputs are built here; TLC computes the count."""
+    kmax = kmax or max(1, edge // 2 - 1)
+    for _ in range(2000):
+        k = rng.randint(1, kmax)
+        a = rng.randint(2, 40)                 # px = a/4 A in 0.5 .. 10
+        num, den = 2 * edge * a, 2 * k + 1     # res = 25 * num / den hundredths
+        if num % den == 0:
+            return 25 * a, 25 * (num // den)
+    return None
+
+
+def rand_res(rng, n, filt=None, tie=False):
     """Resolution + pixel size aimed (loosely) at cutoffs 1..N/2; TLC computes the pixel count and rejects ties."""
     px100 = rng.randint(50, 1000)
     top = max(n) // 2
@@ -401,6 +446,11 @@ def rand_res(rng, n, filt=None):
         return max(1, int(round(n[0] * px100 / x)))
     filt = filt or rng.choice(["lowpass", "highpass", "bandpass"])
     t = {"kind": "res", "n": n, "px100": px100, "res100": res_for(), "filt": filt, "mseed": rng.randrange(2 ** 31)}
+    if tie:
+        pr = tie_request(rng, n[0], kmax=max(1, min(n[0], max(n)) // 2 - 1))
+        if pr is not None:
+            t["px100"], t["res100"] = pr
+            px100 = pr[0]
     if filt == "bandpass":
         t["hres100"] = res_for()
         if t["hres100"] < t["res100"]:          # the high-pass cutoff (in pixels) must not exceed the low-pass cutoff
@@ -416,7 +466,7 @@ def replay(ctx, case):
             replay_hard(ctx, recs[0], case.get("mseed", 0))
         else:
             replay_pixels(ctx, recs[0])
-    elif case["kind"] in ("filt", "res", "dtype"):
+    elif case["kind"] in ("filt", "res", "dtype", "sweep"):
         run_traces(ctx, [case], name="replaytrace")
     else:
         raise core.MachineryError("unknown case kind %r" % (case.get("kind"),))
@@ -439,8 +489,10 @@ def run(ctx):
         "the soft-edge tolerance 1e-3 is above the proven worst case 3.5e-4 (corner leak of the 4-sigma truncated kernel "
         "at r = 4 sigma + 1, sigma = 4); DESIGN's 1e-4 is exceeded by the unchanged tree at (N=40, r=17, sigma=4)",
         "band-pass gain range [0,1] is claimed only for equal edge widths and rh <= rl (it is a difference of low-passes)",
-        "sigma restricted to multiples of 1/4 so that the region bounds are integers; x.5 rounding ties of "
-        "edge*px/res are not generated (decided by TLC, discarded)",
+        "sigma restricted to multiples of 1/4 so that the region bounds are integers; exact x.5 ties of edge*px/res go to "
+        "the even neighbour (Python round) and are compared when px and res are multiples of 1/4 A (quotient exact in "
+        "floating point); other rational ties are discarded (decided by TLC)",
+        "quick tier: hard-edged low-pass at every cutoff 1..24 of a 48-box, gain table as per-column runs decided per column",
         "input dtypes: the same integer-valued map as int16 / int32 / float32 / float64 (float32 residuals within 5e-6)",
         "independence of calls (repeat after overwriting the returned array, earlier results unchanged, argument "
         "untouched) is read into 'filtering is a linear map of its input'",
@@ -483,8 +535,17 @@ def run(ctx):
             px100 = rng.randint(50, 1000)
             x = rng.uniform(0.6, edge / 2 + 0.4)
             reqs.append({"kind": "pixels", "edge": edge, "px100": px100, "res100": max(1, int(round(edge * px100 / x)))})
-        # exact .5 ties must be recognised (and not compared): edge*px/res = 2.5, 4.5
-        reqs += [{"kind": "pixels", "edge": 10, "px100": 100, "res100": 400}, {"kind": "pixels", "edge": 9, "px100": 200, "res100": 400}]
+        # exact .5 ties, both parities of the floor (round() goes to the even neighbour): 2.5, 4.5, 1.5, 3.5, 5.5, 7.5 ...
+        reqs += [{"kind": "pixels", "edge": 10, "px100": 100, "res100": 400}, {"kind": "pixels", "edge": 9, "px100": 200, "res100": 400},
+                 {"kind": "pixels", "edge": 24, "px100": 100, "res100": 1600}, {"kind": "pixels", "edge": 28, "px100": 100, "res100": 800},
+                 {"kind": "pixels", "edge": 44, "px100": 200, "res100": 1600}, {"kind": "pixels", "edge": 30, "px100": 150, "res100": 600}]
+        for _ in range(ctx.pick(60, 600)):
+            edge = rng.randint(8, 48)
+            pr = tie_request(rng, edge)
+            if pr is not None:
+                reqs.append({"kind": "pixels", "edge": edge, "px100": pr[0], "res100": pr[1]})
+        # a rational tie that is not exact in floating point must be recognised and left undecided
+        reqs.append({"kind": "pixels", "edge": 15, "px100": 110, "res100": 1100})
         uniq = {}
         for q in reqs:
             uniq.setdefault(core.stable_hash(q), q)
@@ -503,6 +564,11 @@ def run(ctx):
                 c = rand_filt(rng, rand_box(rng, 8, 16, cap=2400))
                 c["kind"] = "dtype"
                 cases.append(c)
+            # every integer cutoff 1..24 of the largest box (lattice points exactly on the sphere: 13, 17, 23, 15, 25 ...)
+            big = rng.choice([[48, 48, 48], [48, 47, 48], [48, 48, 45], [47, 48, 48]])
+            cases.append({"kind": "sweep", "n": big, "cutoffs": list(range(1, 25)), "mseed": rng.randrange(2 ** 31)})
+            for i in range(9):      # resolution + pixel size at exact .5 ties (floor odd and even), every filter
+                cases.append(rand_res(rng, noncubic_box(rng, 8, 20, 3000), filt=["lowpass", "highpass", "bandpass"][i % 3], tie=True))
             for i in range(24):     # edge = first axis: boxes with three different sizes, every filter in turn
                 cases.append(rand_res(rng, noncubic_box(rng, 8, 20, 3000), filt=["lowpass", "highpass", "bandpass"][i % 3]))
         else:
@@ -524,4 +590,8 @@ def run(ctx):
             for i in range(150):
                 cases.append(rand_res(rng, noncubic_box(rng, 8, 32, 12000), filt=["lowpass", "highpass", "bandpass"][i % 3]))
             cases.append(rand_res(rng, [48, 48, 48]))
+            for i in range(60):
+                cases.append(rand_res(rng, noncubic_box(rng, 8, 32, 12000), filt=["lowpass", "highpass", "bandpass"][i % 3], tie=True))
+            for big in ([48, 48, 48], [48, 44, 47], [40, 48, 36], [33, 30, 48]):
+                cases.append({"kind": "sweep", "n": big, "cutoffs": list(range(1, 25)), "mseed": rng.randrange(2 ** 31)})
         run_traces(ctx, cases, batch=ctx.pick(40, 30))
